@@ -336,7 +336,20 @@ class GheInterp:
                 self.h = self.case["hmin"] + st_["frac"] * (self.case["hmax"] - self.case["hmin"])
                 self.ghe.bhe.b.H = self.h
             elif op == "size":
-                guarded(self.ghe.size, method=TimestepType.HYBRID, allow=(), what="size(HYBRID)")
+                try:
+                    guarded(self.ghe.size, method=TimestepType.HYBRID, allow=(ValueError,), what="size(HYBRID)")
+                except ValueError as e:
+                    # e.g. a profile whose hybrid sequence yields NaN temperatures (KF-C06-1): legitimate only if a fresh
+                    # object rejects the same input the same way
+                    g = build.make_ghe(self.case, hourly=self.hourly)[0]
+                    try:
+                        g.size(method=TimestepType.HYBRID)
+                    except ValueError:
+                        self.methods.add("size")
+                        self.h = float(self.ghe.bhe.b.H)
+                        return
+                    raise Violation(f"size(HYBRID) raises ValueError({e}) on this history but not on a fresh object",
+                                    sig={"kind": "size_history", "exc": "ValueError"})
                 self.h = float(self.ghe.bhe.b.H)
                 self.methods.add("size")
             elif op == "simulate":
